@@ -48,9 +48,20 @@ var zzCorpus = []string{
 	"a := [\n    1 // one\n    2\n]\nm := {\n    k: 1\n}\nprint a m\n",
 	"s := \"a\" + \"b\"\nt := s[0] + s[1:]\nb := !(s == t) and -1 < 2 or err\nprint s t b // c\n",
 	"x := [[1] []]\ny := [] + [1]\nz := {}\nprint x y z\n",
+	"on key k:string\n    print k[0] k[1:] (len k) k+\"x\"\n    for c := range k\n        print c\n    end\nend\n",
+	"func h:num a:[]num m:{}num s:string\n    return a[0] + m.k + (len s) + (len a[1:])\nend\nprint (h [1] {k:2} \"s\")\n",
 }
 
-var zzInserts = []string{"(", ")", "[", "]", "{", "}", ":", ":=", "=", ".", "...", "-", "!", "func", "end", "on", "if", "else", "for", "range", "while", "return", "break", "num", "any", "x", "nope", "1", "1.2.3", "\"s\"", "\"", "#", "\n", " ", "//c", "and", "_"}
+var zzInserts = []string{"func", "1.2.3", "[]", "{}num", "foo", "\"", "#", "(", ")", "[", "]", "{", "}", ":", ":=", "=", ".", "...", "-", "!", "end", "on", "if", "else", "for", "range", "while", "return", "break", "num", "any", "x", "nope", "1", "\"s\"", "\n", " ", "//c", "and", "_", "string"}
+
+// zzNIns: the quick tier uses the first INS fragments, the thorough tier all.
+func zzNIns() int {
+	n := zzParam("INS", len(zzInserts))
+	if n > len(zzInserts) {
+		n = len(zzInserts)
+	}
+	return n
+}
 
 type zzTokSpan struct{ start, end int }
 
@@ -101,11 +112,11 @@ func zzEdit(src string, which string) string {
 		return string(rs[:spans[k].end]) + string(rs[spans[k].start:])
 	case "replace":
 		k := zzChoice("tok", len(spans))
-		ins := zzInserts[zzChoice("ins", len(zzInserts))]
+		ins := zzInserts[zzChoice("ins", zzNIns())]
 		return string(rs[:spans[k].start]) + ins + string(rs[spans[k].end:])
 	case "insert":
 		k := zzChoice("tok", len(spans)+1)
-		ins := zzInserts[zzChoice("ins", len(zzInserts))]
+		ins := zzInserts[zzChoice("ins", zzNIns())]
 		at := len(rs)
 		if k < len(spans) {
 			at = spans[k].start
